@@ -116,6 +116,11 @@ func c07Check(text string) (string, string) {
 			if d.Start < 0 || d.End < d.Start || d.End > limit {
 				return "C07:error-position-outside-input", fmt.Sprintf("error range [%d,%d) outside input of length %d: %q", d.Start, d.End, limit, d.Message)
 			}
+			// the rendered position is the line/column of the end of the range in the
+			// error's own text (computed independently here)
+			if got, want := d.Location(), refLocation(d.Text, d.End); got != want {
+				return "C07:error-location-wrong", fmt.Sprintf("Location() = %s, the range [%d,%d) ends at %s: %q", got, d.Start, d.End, want, d.Message)
+			}
 			first = false
 			e = d.Wrapped
 		}
@@ -168,6 +173,21 @@ func c07Check(text string) (string, string) {
 		return "C07:gap-not-blank-or-comment", fmt.Sprintf("text after the last directive is not whitespace/comment: %q", text[pos:])
 	}
 	return "", ""
+}
+
+func refLocation(text string, end int) directives.Location {
+	line, col := 1, 1
+	for pos, ch := range text {
+		if pos >= end {
+			break
+		}
+		if ch == '\n' {
+			line, col = line+1, 1
+		} else {
+			col++
+		}
+	}
+	return directives.Location{Line: line, Col: col}
 }
 
 func renderErr(err error, de directives.Error) (msg string, panicked string) {
